@@ -25,9 +25,15 @@ pub fn run_plan(plan: &Plan, keep: bool) -> RunOutput {
     // C07's one-assignment clause over programs whose expert node writes a variable from its
     // observability callback (a callback made inside stabilise): observers must still show the
     // assignment current when stabilise was called
-    if plan.knobs.stop_on == "C07" && plan.engine == "expert" && out.faults.get("expert_write_from_observability_callback").copied().unwrap_or(0) > 0 {
+    if plan.knobs.stop_on == "C07" && plan.engine == "expert" {
         if let Some(v) = out.violations.iter().find(|v| v.rule == "wrong-value").cloned() {
-            out.violations.push(crate::trace::Violation { property: "C07", rule: "observers-not-one-assignment", at: v.at, detail: format!("expert engine, after a write made by an observability callback inside stabilise: {}", v.detail) });
+            let hook = out.faults.get("expert_write_from_observability_callback").copied().unwrap_or(0) > 0;
+            out.violations.push(crate::trace::Violation {
+                property: "C07",
+                rule: "observers-not-one-assignment",
+                at: v.at,
+                detail: format!("expert engine{}: an observer does not show the value of the current variable assignment: {}", if hook { ", after a write made by an observability callback inside stabilise" } else { "" }, v.detail),
+            });
         }
     }
     // C02 over expert nodes: the dynamic sum, too, is evaluated at most once per stabilise and
